@@ -165,7 +165,7 @@ def run(ctx):
                     except Exception:
                         ok = False
                 if ok:
-                    variants.append((("multi", (), "multi", [x[0] for x in sub]), s2))
+                    variants.append((("multi", (), "multi", [x[0] for x in sub], sub), s2))
         # model-vs-code: the extracted model of expand() on every variant, against the schema the real validator exposes
         if ctx["driver_ok"] and "rules_set_registry" not in cfg:
             for rw, var in variants[:3] + [(None, canonical)]:
@@ -181,6 +181,28 @@ def run(ctx):
             dist[rw[0] + "@" + rw[2]] += 1
             distinct.add(json.dumps(common.jval(var), sort_keys=True, default=repr))
             d = compare(cobs, observe(var, cfg, docs), canonical)
+            if d and rw[0] == "multi":
+                # shrink the set of rewrites: a violation that survives with a single rewrite is reported (and attributed) as that one
+                def build(sub):
+                    s2 = canonical
+                    for r in sorted(sub, key=lambda x: -len(x[1])):
+                        s2 = apply_rewrite(s2, r)
+                    return s2
+                sub = list(rw[4])
+                changed = True
+                while changed and len(sub) > 1:
+                    changed = False
+                    for j in range(len(sub)):
+                        cand = sub[:j] + sub[j + 1:]
+                        try:
+                            v2 = build(cand)
+                            d2 = compare(cobs, observe(v2, cfg, docs), canonical)
+                        except Exception:
+                            d2 = None
+                        if d2:
+                            sub, var, d, changed = cand, v2, d2, True
+                            break
+                rw = sub[0] if len(sub) == 1 else ("multi", (), "multi", [x[0] for x in sub], sub)
             if d:
                 sig = signature(rw, canonical) if rw[0] != "multi" else "multi:" + "+".join(sorted(set(rw[3])))
                 violations.append({"signature": sig, "what": "%s shorthand at %s position: %s" % (rw[0], rw[2], d),
